@@ -188,12 +188,13 @@ def sea_positions(gs, sub, r, n):
 
 def random_case(seed, schemes=("EF", "RK2", "RK4"), diffusion=False, vertical=False, nsteps=5, npart=14, subgrids=True, fast=True):
     r = np.random.RandomState(seed)
-    gs = grid_spec(seed, land=True)
+    dims = [(12, 10), (9, 13), (11, 11), (10, 14)][seed % 4]     # wide, tall, square
+    gs = grid_spec(seed, imax=dims[0], jmax=dims[1], land=True)
     imax, jmax = gs["imax"], gs["jmax"]
     sub = None
     eff = (1, imax - 1, 1, jmax - 1)
     if subgrids and r.rand() < 0.5:
-        a = r.randint(1, 4); b = r.randint(imax - 4, imax)
+        a = r.randint(1, 3); b = r.randint(imax - 3, imax)
         c = r.randint(1, 3); d_ = r.randint(jmax - 3, jmax)
         sub = [int(a), int(b), int(c), int(d_)]
         eff = tuple(sub)
